@@ -87,6 +87,17 @@ class DispatchStation(VehicleState):
             )
         elif station.geoid == vehicle.geoid:
             # already there!
+            current_state = vehicle.vehicle_state
+            if (
+                isinstance(current_state, ChargeQueueing)
+                and current_state.station_id == self.station_id
+                and current_state.charger_id == self.charger_id
+            ):
+                # the vehicle is already waiting in this station's queue for this plug type and
+                # keeps its place there. plugging it in from here would let it pass vehicles that
+                # joined the queue earlier whenever a plug was released earlier in the same
+                # instruction phase (off-shift human drivers repeat this instruction every step).
+                return None, None
             next_state = ChargingStation.build(self.vehicle_id, self.station_id, self.charger_id)
             return next_state.enter(sim, env)
         elif not is_valid:
